@@ -51,7 +51,7 @@ CHECKS = {
         "timeout": {"quick": 1200, "thorough": 14000},
     },
     "C03": {
-        "scenarios": [("C03-close", "vsim"), ("C03-stuck", "vsim")],
+        "scenarios": [("C03-close", "vsim"), ("C03-stuck", "vsim"), ("C03-cut", "vsim")],
         "rule": "closer (client or server) writes a generated size sequence and closes after 0..2 s; peer reads to the end; TCP: "
                 "chunk schedule x bounded pipe x slow reader; UDP: positional faults on the datagrams in flight at close time (drop/"
                 "delay of one of the last data segments, of a middle segment so that the close overtakes it, drop/delay/duplicate of "
@@ -59,7 +59,9 @@ CHECKS = {
                 "peer observed EOF or an error; a UDP backlog family (3-5 MiB written and closed at once over a lossless in-order path "
                 "with 100/250 ms delay and a capacity of 500-2000 datagrams/s or unlimited); plus the stuck-writer family (TCP): small writes until the writer's Write blocks behind "
                 "a peer that is not reading (queue, channel and an 1-16 KiB pipe full), Close at that moment, consumer starting 3-8 s "
-                "later; everything written before Close was called must be read before a clean EOF; "
+                "later; everything written before Close was called must be read before a clean EOF; a connection-cut family (TCP): "
+                "all writes succeed, Close returns, then the connection underneath is reset or ended by an orderly FIN 0-600 ms later "
+                "(or in the middle of the writes: judged only if every write and the Close succeeded) with a slow consumer; "
                 "distinct = hash of (transport, closer, fault class, rule hits, write shape, outcome)",
         "technique": "runtime monitor: 'EOF implies everything written was read' oracle at the application boundary, enumerated faults at "
                      "close time on a simulated network in virtual time, hook-point parking of the reader",
